@@ -29,6 +29,8 @@ use allsorts::gpos::{self, Info, Placement};
 use allsorts::gsub::{FeatureMask, Features, GlyphOrigin, RawGlyph, RawGlyphFlags};
 use allsorts::layout::{new_layout_cache, GDEFTable, LayoutCache, LayoutTable, GPOS};
 use allsorts::tables::kern::KernTable;
+use allsorts::tables::variable_fonts::fvar::Tuple;
+use allsorts::tables::F2Dot14;
 use serde_json::{json, Value};
 use std::collections::HashMap;
 use tinyvec::tiny_vec;
@@ -46,7 +48,16 @@ pub struct Prepared {
     gpos: Option<LayoutCache<GPOS>>,
     kern_bytes: Option<&'static [u8]>,
     font: F,
+    /// normalised coordinates of the instance to shape for (prog.var.tuple), if any
+    tuple: Option<&'static [F2Dot14]>,
     pub sizes: (usize, usize, usize),
+}
+
+impl Prepared {
+    fn tuple(&self) -> Option<Tuple<'static>> {
+        // SAFETY: a leaked slice of exactly the coordinates the program lists, each within -1..1
+        self.tuple.map(|c| unsafe { Tuple::from_raw_parts(c.as_ptr(), c.len()) })
+    }
 }
 
 fn leak(v: Vec<u8>) -> &'static [u8] {
@@ -56,7 +67,15 @@ fn leak(v: Vec<u8>) -> &'static [u8] {
 pub fn prepare(prog: &Value) -> Result<Prepared, String> {
     let has_gpos = prog["gpos"].as_bool().unwrap_or(false);
     // GDEF is optional: tab = "absent" builds a font (and an apply call) without it
-    let gdef_bytes = if has_gpos { enc::gdef(&prog["gdef"]).map(leak) } else { None };
+    let var = prog.get("var");
+    let gdef_bytes = if has_gpos { enc::gdef(&prog["gdef"], var).map(leak) } else { None };
+    let tuple: Option<&'static [F2Dot14]> = match var {
+        Some(v) if v["tuple"]["has"].as_bool().unwrap_or(false) => {
+            let c: Vec<F2Dot14> = enc::ints(&v["tuple"]["c"]).iter().map(|x| F2Dot14::from_raw(*x as i16)).collect();
+            Some(Box::leak(c.into_boxed_slice()))
+        }
+        _ => None,
+    };
     let gpos_bytes = if has_gpos { Some(leak(enc::gpos(prog))) } else { None };
     let kern_list = enc::arr(&prog["kern"]);
     let kern_bytes = if kern_list.is_empty() { None } else { Some(leak(enc::kern(&prog["kern"]))) };
@@ -97,6 +116,7 @@ pub fn prepare(prog: &Value) -> Result<Prepared, String> {
         gpos,
         kern_bytes,
         font,
+        tuple,
         sizes: (gdef_bytes.map_or(0, |b| b.len()), gpos_bytes.map_or(0, |b| b.len()), kern_bytes.map_or(0, |b| b.len())),
     })
 }
@@ -177,7 +197,7 @@ fn run_apply(p: &Prepared, input: &Value) -> Result<Value, String> {
             kern,
             true,
             &Features::Mask(FeatureMask::empty()),
-            None,
+            p.tuple(),
             p.script,
             None,
             &mut infos,
@@ -197,9 +217,10 @@ pub struct Shaped {
 /// (B) Font::shape + GlyphLayout on the whole font.
 fn run_shape(p: &mut Prepared, input: &Value) -> Result<Shaped, String> {
     let glyphs = raw_glyphs(input);
+    let tuple = p.tuple();
     let infos = p
         .font
-        .shape(glyphs, p.script, None, &Features::Mask(FeatureMask::empty()), None, true)
+        .shape(glyphs, p.script, None, &Features::Mask(FeatureMask::empty()), tuple, true)
         .map_err(|(e, _)| format!("Err({:?})", e))?;
     let ltr = GlyphLayout::new(&mut p.font, &infos, TextDirection::LeftToRight, false)
         .glyph_positions()
@@ -252,7 +273,9 @@ fn replay(tpl_path: &str, cases_path: &str, out_path: &str) {
         let input = &case["in"];
         let exp = enc::arr(&case["exp"]);
         let report = |stage: &str, want: Value, got: Value, out: &mut NdWriter| {
-            out.write(&json!({"id": case["id"], "in": input, "stage": stage, "want": want, "got": got, "selftest": case["selftest"]}));
+            // (`alt`: what the specification says a known deviation would give; copied for the driver's naming)
+            out.write(&json!({"id": case["id"], "in": input, "stage": stage, "want": want, "got": got, "selftest": case["selftest"],
+                              "alt": case["alt"]}));
         };
         let p = match prepared.get_mut(&key) {
             Some(Ok(p)) => p,
@@ -395,6 +418,58 @@ fn record(seed: u64, n_prog: usize, n_str: usize, out_path: &str) {
         }
         if uses_kern && enc::arr(&prog["kern"]).iter().any(|st| enc::int(&st["cov"]) & 1 == 0) {
             *fam.entry("programs_kern_vertical").or_insert(0) += 1;
+        }
+        // variation data: what the program (an INPUT of the run) contains
+        if let Some(var) = prog.get("var") {
+            let on = var["tuple"]["has"].as_bool().unwrap_or(false);
+            let store = var["store"].as_bool().unwrap_or(false) && tab != "absent";
+            *fam.entry(if on { "programs_var_with_tuple" } else { "programs_var_without_tuple" }).or_insert(0) += 1;
+            if on && !store {
+                *fam.entry("programs_var_tuple_without_store").or_insert(0) += 1;
+            }
+            if on && enc::arr(&var["tuple"]["c"]).len() == 2 {
+                *fam.entry("programs_var_two_axes").or_insert(0) += 1;
+            }
+            let mut var_dev = false;
+            let mut hint_dev = false;
+            for l in enc::arr(&prog["lookups"]) {
+                let ty = enc::int(&l["ty"]);
+                for st in enc::arr(&l["subs"]) {
+                    let mut recs: Vec<(i64, &Value)> = Vec::new();
+                    if ty == 1 {
+                        let vf = enc::int(&st["vf"]);
+                        if st["f"] == 1 {
+                            recs.push((vf, &st["v"]));
+                        } else {
+                            recs.extend(enc::arr(&st["vs"]).iter().map(|v| (vf, v)));
+                        }
+                    } else if ty == 2 {
+                        let key = if st["f"] == 1 { "sets" } else { "recs" };
+                        for row in enc::arr(&st[key]) {
+                            for rec in enc::arr(row) {
+                                recs.push((enc::int(&st["vf1"]), &rec["v1"]));
+                                recs.push((enc::int(&st["vf2"]), &rec["v2"]));
+                            }
+                        }
+                    }
+                    for (vf, v) in recs {
+                        if let Some(dev) = v.get("dev") {
+                            for b in 0..4 {
+                                if vf & (0x10 << b) != 0 {
+                                    var_dev |= dev[b]["k"] == "var";
+                                    hint_dev |= dev[b]["k"] == "hint";
+                                }
+                            }
+                        }
+                    }
+                }
+            }
+            if on && store && var_dev {
+                *fam.entry("programs_var_value_record_with_variation_index").or_insert(0) += 1;
+            }
+            if hint_dev {
+                *fam.entry("programs_var_value_record_with_hinting_device").or_insert(0) += 1;
+            }
         }
         // combination programs (cursive + marks + ...): what the program and its inputs contain
         let lookups = enc::arr(&prog["lookups"]);
